@@ -138,13 +138,15 @@ ProposeGuard(b, n, t) ==
     ELSE IF b.index[t.id] # NoV THEN "trxexists"
     ELSE "pass"
 
-\* one pass of getValidLeaves over a snapshot `ord` of the tips
-RECURSIVE Pass(_, _, _)
-Pass(b, ord, sel) ==
-    IF ord = <<>> \/ Len(sel) = 2 THEN [b |-> b, sel |-> sel]
+\* one pass of getValidLeaves over a snapshot `ord` of the tips.  `bad` is TRUE when the last tip
+\* examined was invalid: the function's named error result then still holds that validation error
+\* when the loop ends, and CreateLeaf returns it (after the deletions) instead of building a vertex.
+RECURSIVE Pass(_, _, _, _)
+Pass(b, ord, sel, bad) ==
+    IF ord = <<>> \/ Len(sel) = 2 THEN [b |-> b, sel |-> sel, bad |-> bad]
     ELSE LET x == Head(ord) IN
-         IF ValidLeaf(b, x) THEN Pass(b, Tail(ord), Append(sel, x))
-         ELSE Pass(DropTipBump(b, x), Tail(ord), sel)
+         IF ValidLeaf(b, x) THEN Pass(b, Tail(ord), Append(sel, x), FALSE)
+         ELSE Pass(DropTipBump(b, x), Tail(ord), sel, TRUE)
 
 NewLeaf(n, t, sel) ==
     LET l == sel[1]
@@ -154,8 +156,9 @@ NewLeaf(n, t, sel) ==
 \* the part of CreateLeaf executed under ab.mux; id is the identity the new vertex will get
 ProposeCommitOutcomes(b, n, t, id) ==
     UNION {
-      LET p1 == Pass(b, ord, <<>>) IN
-      IF p1.sel # <<>>
+      LET p1 == Pass(b, ord, <<>>, FALSE) IN
+      IF p1.bad THEN {[res |-> "tipinvalid", b |-> p1.b, new |-> <<>>]}
+      ELSE IF p1.sel # <<>>
       THEN {IF p1.b.index[t.id] # NoV
             THEN [res |-> "unexpected", b |-> p1.b, new |-> <<>>]
             ELSE LET nv == NewLeaf(n, t, p1.sel) IN
@@ -164,8 +167,10 @@ ProposeCommitOutcomes(b, n, t, id) ==
                                      !.edges = @ \cup {<<nv.l, id>>, <<nv.r, id>>},
                                      !.index = [@ EXCEPT ![t.id] = id]]]}
       ELSE \* second pass; the code's nil test is inverted: finding a tip now is an error
-           {LET p2 == Pass(p1.b, ord2, <<>>) IN
-              [res |-> IF p2.sel # <<>> THEN "unexpected" ELSE "panic", b |-> p2.b, new |-> <<>>]
+           \* (reachable only from an empty tip snapshot)
+           {LET p2 == Pass(p1.b, ord2, <<>>, FALSE) IN
+              [res |-> IF p2.bad THEN "tipinvalid" ELSE IF p2.sel # <<>> THEN "unexpected" ELSE "panic",
+               b |-> p2.b, new |-> <<>>]
             : ord2 \in SetToSeqs(TipsOf(p1.b))}
       : ord \in SetToSeqs(TipsOf(b))}
 
